@@ -25,7 +25,7 @@ func init() {
 		Property: "C14",
 		Rule: "random zones served by a local DoH server that logs every query: hosts with HTTPS alias chains (lengths 0..7, loops), service records (priorities, targets in/out of the zone, hints, ECH, ALPN, ports), in-answer CNAME chains, " +
 			"NXDOMAIN / SERVFAIL / REFUSED / FORMERR / NOTIMP / rcode 9 / HTTP-level failures, and POISONED extra answers owned by unrelated names (marker addresses 6.6.6.x), " +
-			"x every accepted name form (host, host:port, scheme://host[:port]/path) x ports {none,0,80,443,8443,65535} x schemes {none,http,https,HTTPS,foo, 300-byte scheme, schemes of 61..64 characters} x names of any length (labels up to 70 bytes, totals up to 300). " +
+			"x every accepted name form (host, host:port, scheme://host[:port]/path) x ports {none,0,80,443,8443,65535, and ports written with leading zeros} x schemes {none,http,https,HTTPS,foo, 300-byte scheme, schemes of 61..64 characters} x names of any length (labels up to 70 bytes, totals up to 300). " +
 			"Compared with the Lean model (result, error class, exact query log) and Go-side RFC 9460 predicates. distinct = (name form, scheme class, port class, zone shape, outcome).",
 		Gen: genC14,
 	})
@@ -358,7 +358,7 @@ func genC14(env *core.Env, emit func(core.Case)) {
 		default:
 			host = dnsNameN(r, 1+r.IntN(3)) + ".example"
 		}
-		portClass := []string{"none", "0", "80", "443", "8443", "65535"}[r.IntN(6)]
+		portClass := []string{"none", "0", "80", "443", "8443", "65535", "08443", "0443", "000025"}[r.IntN(9)] // a port may be written with leading zeros
 		schemeClass := []string{"none", "none", "http", "https", "HTTPS", "foo", "long", "label-limit"}[r.IntN(8)]
 		input := host
 		hp := host
